@@ -25,10 +25,13 @@ type Pin struct {
 // (salt, site, key), so the order in which racing goroutines resume is chosen
 // by the generator, not by the Go scheduler.
 type Sched struct {
-	Salt     uint64
-	Pins     []Pin
-	Off      bool
-	Skip     map[string]bool // sites at which no delay is inserted
+	Salt uint64
+	Pins []Pin
+	Off  bool
+	Skip map[string]bool // sites at which no delay is inserted
+	// Trace, if set, is told when a goroutine arrives at a site ("arrive") and
+	// when it goes on after its delay ("resume").
+	Trace    func(site, key, phase string)
 	sleepers atomic.Int32
 	visits   atomic.Int64
 	mu       sync.Mutex
@@ -66,9 +69,15 @@ func (s *Sched) hook(site, key string) {
 	}
 	s.sites[site]++
 	s.mu.Unlock()
+	if s.Trace != nil {
+		s.Trace(site, key, "arrive")
+	}
 	s.sleepers.Add(1)
 	time.Sleep(s.Delay(site, key))
 	s.sleepers.Add(-1)
+	if s.Trace != nil {
+		s.Trace(site, key, "resume")
+	}
 }
 
 // Sleep lets the calling goroutine sleep on the fake clock like a hook visit
